@@ -394,6 +394,72 @@ Definition get_codecs (engine_codecs prefs : list codec) : list codec :=
            end) prefs)
   end.
 
+(* ---------- setCodecPreferencesFromRemoteDescription ---------- *)
+
+(* remove the last element satisfying p (the inner loop runs from the end and
+   breaks at the first hit) *)
+Fixpoint remove_first {A} (p : A -> bool) (l : list A) : list A :=
+  match l with
+  | [] => []
+  | a :: t => if p a then t else a :: remove_first p t
+  end.
+Definition remove_last {A} (p : A -> bool) (l : list A) : list A :=
+  rev (remove_first p (rev l)).
+
+(* payloadMapping: remote payload type -> engine payload type; kept in
+   ascending key order (Go ranges over the map in unspecified order) *)
+Fixpoint pm_set (k v : N) (m : list (N * N)) : list (N * N) :=
+  match m with
+  | [] => [(k, v)]
+  | (k', v') :: t =>
+      if N.eqb k' k then (k, v) :: t
+      else if N.ltb k k' then (k, v) :: (k', v') :: t
+      else (k', v') :: pm_set k v t
+  end.
+
+(* filterByMatchType: remote codecs visited from the last to the first; state =
+   (remote codecs kept behind the cursor, leftCodecs, payloadMapping, result) *)
+Fixpoint filter_by_match (want : mt) (rev_remote kept left : list codec)
+         (pm : list (N * N)) (acc : list codec)
+  : list codec * list codec * list (N * N) * list codec :=
+  match rev_remote with
+  | [] => (kept, left, pm, acc)
+  | rc :: rp =>
+      if is_rtx rc then filter_by_match want rp (rc :: kept) left pm acc
+      else
+        let '(mc, m) := fuzzy_search rc left in
+        if mt_eqb m want then
+          filter_by_match want rp kept
+                          (remove_last (exact_ok mc) left)
+                          (pm_set (c_pt rc) (c_pt mc) pm)
+                          (set_pt rc (c_pt mc) :: acc)
+        else filter_by_match want rp (rc :: kept) left pm acc
+  end.
+
+(* the preference list handed to SetCodecPreferences *)
+Definition prefs_from_remote (engine_codecs remote : list codec) : list codec :=
+  let '(rem1, left1, pm1, exact) := filter_by_match MExact (rev remote) [] engine_codecs [] [] in
+  let '(rem2, left2, pm2, partial) := filter_by_match MPartial (rev rem1) [] left1 pm1 [] in
+  let rtx :=
+    flat_map (fun kv =>
+                let remoteRTX := find_rtx_pt (fst kv) rem2 in
+                if N.eqb remoteRTX 0 then []
+                else
+                  let engineRTX := find_rtx_pt (snd kv) left2 in
+                  if N.eqb engineRTX 0 then []
+                  else match find (pt_is engineRTX) left2 with
+                       | Some c => [c]
+                       | None => []
+                       end) pm2 in
+  (exact ++ partial ++ rtx)%list.
+
+(* the transceiver's preference list afterwards (an error leaves it empty) *)
+Definition set_prefs_from_remote (engine_codecs remote : list codec) : list codec :=
+  match set_codec_preferences engine_codecs (prefs_from_remote engine_codecs remote) with
+  | Some l => l
+  | None => []
+  end.
+
 (* ---------- vocabulary of the C15 statements (specification side) ---------- *)
 
 (* the codec's apt parameter, as matchRemoteCodec reads it *)
